@@ -3,6 +3,7 @@ pub mod alloc;
 pub mod chain;
 pub mod corpus;
 pub mod io;
+pub mod monitors;
 pub mod panics;
 pub mod props;
 pub mod report;
